@@ -692,6 +692,11 @@ func jsonRunTree(e *pjson.Encoder, t *jsonTree, calls *[]string) bool {
 
 var jsonIndents = []string{"", "", " ", "\t", "  ", " \t", "    "}
 
+// indents NewEncoder must either reject or turn into JSON white space only
+var jsonOddIndents = []string{"\v", "\f", "\n", "\r", " \n", "\u0085", "\u00a0", " \u00a0", "\u2003", "\u2028", "\u3000", "x", " x", "\x00", "\t\v", "\u00a0\u00a0"}
+
+func v1c(b []byte) any { v, _ := jsonParseAny(b); return v }
+
 func jsonParseAny(b []byte) (any, error) {
 	d := stdjson.NewDecoder(bytes.NewReader(b))
 	d.UseNumber()
@@ -726,6 +731,24 @@ func (c *Ctx) jsonEncCase(t *jsonTree) {
 		return
 	}
 	c.Stat("enc_ok")
+	// indents outside the documented set (space, tab): whatever NewEncoder accepts must still give JSON
+	if c.Intn(3) == 0 {
+		odd := jsonOddIndents[c.Intn(len(jsonOddIndents))]
+		if e, err := pjson.NewEncoder(nil, odd); err != nil {
+			c.Stat("enc_odd_indent_rejected")
+		} else {
+			c.Stat("enc_odd_indent_accepted")
+			var calls2 []string
+			jsonRunTree(e, t, &calls2)
+			out := e.Bytes()
+			v3, err3 := jsonParseAny(out)
+			if _, _, ok3 := jsonTokens(out); err3 != nil || !ok3 || !stdjson.Valid(out) {
+				c.PropFail("C21", "encoder accepts an indent that makes its output non-JSON", HexB([]byte(odd)), HexB(out))
+			} else if !reflect.DeepEqual(v1c(compact), v3) {
+				c.PropFail("C21", "output with an accepted odd indent parses to a different value", HexB([]byte(odd)), HexB(out))
+			}
+		}
+	}
 	// encoder_emits_json / indent_invariant on the implementation
 	v1, err1 := jsonParseAny(compact)
 	v2, err2 := jsonParseAny(multi)
